@@ -11,7 +11,8 @@ import ast, glob, sys
 for f in glob.glob(sys.argv[1] + "/sigma/**/*.py", recursive=True):
     if "/data/" in f:
         continue
-    open(f, "w").write(ast.unparse(ast.parse(open(f).read())) + "\n")
+    src = open(f).read()
+    open(f, "w").write(ast.unparse(ast.parse(src)) + "\n")
 PY
 else
   (cd "$d" && /venv/bin/python -m black -q -l 140 sigma)
